@@ -63,10 +63,30 @@
 (*     the revocation                                                      *)
 (*  H4 tombstone file unreadable (open error): run continues with none     *)
 (*     and overwrites the store; a configured revoked key is trusted again *)
+(*     -- CONFIRMED, now the switch UnreadableContinues (see below)        *)
 (*  H5 both writes fail on a new revocation: fail closed, then the next    *)
 (*     refresh has forgotten the revocation                                *)
 (*  H7 tombstone write failed, then the state file (sole record) is        *)
 (*     undecodable: the revoked configured key is trusted again            *)
+(*                                                                         *)
+(* Two confirmed defects are kept as SWITCHES (definitions a configuration *)
+(* overrides with `<-`); the specification proper describes the behaviour  *)
+(* the statement asks for, the as-built behaviour is the negative twin     *)
+(* (Neg_*.cfg must violate the named property):                            *)
+(*  UnreadableContinues  readTombstones treats an open error other than    *)
+(*     ENOENT (ELOOP, EACCES, EMFILE, EIO) as transient: the run goes on   *)
+(*     with NO tombstones, MergeConfigured re-admits a revoked key the     *)
+(*     configuration lists, PublishCandidate trusts it, and the tail       *)
+(*     overwrites the real store.  Statement: "if ... the revocation store *)
+(*     is unreadable, validation fails closed instead of trusting it".     *)
+(*  BootTrustsConfig     NewResolver copies cfg.RootKeys into rootKeys     *)
+(*     without looking at the disk: a revoked key the configuration still  *)
+(*     lists is live from start-up until the first AutoTA run publishes    *)
+(*     (after middleware.Ready and the priming round trips).  Statement:   *)
+(*     "never published as a trust anchor again - not after restarts ...,  *)
+(*     configuration that still lists it".  The specification proper seeds *)
+(*     the start-up set with what a run would publish before its fetch     *)
+(*     (BootCandidate), and with nothing when the store cannot be read.    *)
 (***************************************************************************)
 EXTENDS Integers, FiniteSets, Sequences, TLC
 
@@ -84,6 +104,10 @@ CONSTANTS Keys,            \* key materials (strings)
           AllowContinueAfterVolatile, \* keep refreshing after a revocation that could not be recorded at all
           RelevantSignersOnly    \* state-space reduction: only signatures of keys the resolver could use
                                  \* (a signature of any other key is the same as no signature)
+
+\* defect switches (as-built = TRUE); overridden by the Neg_* configurations
+UnreadableContinues == FALSE
+BootTrustsConfig    == FALSE
 
 ASSUME /\ Configured \subseteq Keys
        /\ \A a, b \in Configured : a # b => Tag[a] # Tag[b]
@@ -154,6 +178,20 @@ SoleRecord ==
   /\ \E t \in DOMAIN stateFile.m :
        /\ stateFile.m[t].st \in Marker
        /\ ~(tombFile.kind = "ok" /\ stateFile.m[t].k \in tombFile.s)
+
+\* ---- the read half of AutoTA as functions (used by the step actions and by Restart) ----
+SeedCur(S)      == [t \in {Tag[k] : k \in S} |-> [k |-> CHOOSE k \in S : Tag[k] = t, st |-> "Valid", age |-> 0]]
+Migrated(c, tb) == tb \cup KeysIn(c, Marker)
+Preceded(c, tb) == Drop(c, {t \in DOMAIN c : c[t].st \notin Marker /\ c[t].k \in tb})
+Merged(c, tb)   == LET add == {k \in Configured : Tag[k] \notin DOMAIN c /\ k \notin tb}
+                   IN [t \in DOMAIN c \cup {Tag[k] : k \in add} |->
+                         IF t \in DOMAIN c THEN c[t]
+                         ELSE [k |-> CHOOSE k \in add : Tag[k] = t, st |-> "Valid", age |-> 0]]
+\* what a run started on this disk by a process seeded with Configured publishes before its fetch
+BootCandidate ==
+  LET c0 == IF stateFile.kind = "ok" THEN stateFile.m ELSE SeedCur(Configured)
+      tb == Migrated(c0, IF tombFile.kind = "ok" THEN tombFile.s ELSE {})
+  IN KeysIn(Merged(Preceded(c0, tb), tb), Trusted)
 
 TypeOK ==
   /\ rootKeys \subseteq Keys
@@ -234,14 +272,21 @@ Crash ==
   /\ UNCHANGED <<now, stateFile, tombFile, nRefresh, nRestart, nWF, nRF, seenSince, firstEver, earned, missSince, revAcc,
                  revVol>>
 
-Restart ==
+\* NewResolver.  rf = "tombUnreadable": open() of the tombstone file fails while the process starts
+\* (the fault is over when the start-up run begins; Begin has its own).
+Restart(rf) ==
   /\ pc \in {"idle", "down"} /\ nRestart < MaxRestarts
+  /\ rf \in {"none"} \cup (ReadFaultKinds \cap {"tombUnreadable"})
+  /\ rf # "none" => (nRF < MaxReadFaults /\ tombFile.kind = "ok")
   /\ nRestart' = nRestart + 1
-  /\ rootKeys' = Configured                        \* NewResolver: r.rootKeys = cfg.RootKeys
+  /\ nRF' = IF rf = "none" THEN nRF ELSE nRF + 1
+  /\ rootKeys' = IF BootTrustsConfig THEN Configured        \* as built: r.rootKeys = cfg.RootKeys
+                 ELSE IF rf = "tombUnreadable" \/ tombFile.kind = "corrupt" THEN {}
+                 ELSE BootCandidate
   /\ booting' = TRUE /\ pc' = "idle"
-  /\ ev' = [a |-> "Restart"]
+  /\ ev' = [a |-> "Restart", rf |-> rf]
   /\ UNCHANGED <<now, stateFile, tombFile, tombUnreadable, zone, prior, cur, tombs, cand, fetched,
-                 revOnly, staged, newRev, tombErr, stateErr, nRefresh, nCrash, nWF, nRF, ghost>>
+                 revOnly, staged, newRev, tombErr, stateErr, nRefresh, nCrash, nWF, ghost>>
 
 (***************************************************************************)
 (* AutoTA                                                                  *)
@@ -249,21 +294,20 @@ Restart ==
 \* kskCurrent, err := readFromTAFile(); on error seed from r.rootKeys as Valid, FirstSeen now
 ReadState ==
   /\ pc = "ReadState"
-  /\ cur' = IF stateFile.kind = "ok" THEN stateFile.m
-            ELSE [t \in {Tag[k] : k \in rootKeys} |->
-                    [k |-> CHOOSE k \in rootKeys : Tag[k] = t, st |-> "Valid", age |-> 0]]
+  /\ cur' = IF stateFile.kind = "ok" THEN stateFile.m ELSE SeedCur(rootKeys)
   /\ Step("ReadTombstones")
   /\ ev' = [a |-> "ReadState", fallback |-> (stateFile.kind # "ok")]
   /\ UNCHANGED <<now, rootKeys, stateFile, tombFile, tombUnreadable, booting, zone, prior, tombs, cand,
                  fetched, revOnly, staged, newRev, tombErr, stateErr, bound, ghost>>
 
-\* readTombstones: missing -> empty; open error -> empty (warning); undecodable -> clear trust, abort
+\* readTombstones: missing -> empty; undecodable, or any other open error -> clear trust, abort,
+\* files untouched (as built, UnreadableContinues: open error -> empty map and a warning)
 ReadTombstones ==
   /\ pc = "ReadTombstones"
-  /\ IF ~tombUnreadable /\ tombFile.kind = "corrupt"
+  /\ IF (~tombUnreadable /\ tombFile.kind = "corrupt") \/ (tombUnreadable /\ ~UnreadableContinues)
        THEN /\ rootKeys' = {}
             /\ ClearLocals
-            /\ ev' = [a |-> "ReadTombstones", r |-> "corrupt"]
+            /\ ev' = [a |-> "ReadTombstones", r |-> IF tombUnreadable THEN "unreadable" ELSE "corrupt"]
             /\ UNCHANGED <<now, stateFile, tombFile, bound, seenSince, firstEver, earned, missSince, revAcc, revVol>>
        ELSE /\ tombs' = IF tombUnreadable \/ tombFile.kind # "ok" THEN {} ELSE tombFile.s
             /\ Step("MigrateLegacy")
@@ -275,7 +319,7 @@ ReadTombstones ==
 \* copy Revoked/Removed markers of the state file into the tombstones
 MigrateLegacy ==
   /\ pc = "MigrateLegacy"
-  /\ tombs' = tombs \cup KeysIn(cur, Marker)
+  /\ tombs' = Migrated(cur, tombs)
   /\ Step("TombstonePrecedence")
   /\ ev' = [a |-> "MigrateLegacy"]
   /\ UNCHANGED <<now, rootKeys, stateFile, tombFile, tombUnreadable, booting, zone, prior, cur, cand,
@@ -284,7 +328,7 @@ MigrateLegacy ==
 \* a tombstoned material never stays in kskCurrent (markers excepted)
 TombstonePrecedence ==
   /\ pc = "TombstonePrecedence"
-  /\ cur' = Drop(cur, {t \in DOMAIN cur : cur[t].st \notin Marker /\ cur[t].k \in tombs})
+  /\ cur' = Preceded(cur, tombs)
   /\ Step("MergeConfigured")
   /\ ev' = [a |-> "TombstonePrecedence"]
   /\ UNCHANGED <<now, rootKeys, stateFile, tombFile, tombUnreadable, booting, zone, prior, tombs, cand,
@@ -293,10 +337,7 @@ TombstonePrecedence ==
 \* configured anchors whose TAG is free and whose MATERIAL is not tombstoned enter as Valid
 MergeConfigured ==
   /\ pc = "MergeConfigured"
-  /\ LET add == {k \in Configured : Tag[k] \notin DOMAIN cur /\ k \notin tombs}
-     IN cur' = [t \in DOMAIN cur \cup {Tag[k] : k \in add} |->
-                  IF t \in DOMAIN cur THEN cur[t]
-                  ELSE [k |-> CHOOSE k \in add : Tag[k] = t, st |-> "Valid", age |-> 0]]
+  /\ cur' = Merged(cur, tombs)
   /\ Step("PublishCandidate")
   /\ ev' = [a |-> "MergeConfigured"]
   /\ UNCHANGED <<now, rootKeys, stateFile, tombFile, tombUnreadable, booting, zone, prior, tombs, cand,
@@ -491,7 +532,7 @@ PublishOrClear ==
 
 Next ==
   \/ (pc = "idle" /\ \E d \in DaySteps, rf \in {"none"} \cup ReadFaultKinds : Begin(d, rf))
-  \/ Crash \/ Restart
+  \/ Crash \/ (\E rf \in {"none", "tombUnreadable"} : Restart(rf))
   \/ ReadState \/ ReadTombstones \/ MigrateLegacy \/ TombstonePrecedence \/ MergeConfigured
   \/ PublishCandidate
   \/ (pc = "Fetch" /\ (Fetch(FALSE, NoZone) \/ \E z \in Zones : Fetch(TRUE, z)))
@@ -509,14 +550,16 @@ Spec == Init /\ [][Next]_vars
 (* Properties (C09)                                                        *)
 (***************************************************************************)
 Quiescent == pc = "idle" /\ ~booting
+AtRest    == pc = "idle"                 \* ... or freshly started: what NewResolver published counts too
 Publishing == pc = "PublishOrClear" /\ pc' = "idle"     \* the PublishOrClear step itself (not a Crash)
 
 \* a key beyond the configured anchors is trusted only after >= 30 days of presence in every
 \* accepted refresh, each authenticated by a then-trusted non-revoked key
-TrustOnlyByRFC == Quiescent => rootKeys \subseteq Configured \cup earned
+TrustOnlyByRFC == AtRest => rootKeys \subseteq Configured \cup earned
 
-\* once a self-signed revocation of m was accepted (and recorded), m is never trusted again
-RevokedNeverAgain == Quiescent => rootKeys \cap revAcc = {}
+\* once a self-signed revocation of m was accepted (and recorded), m is never trusted again --
+\* "not after restarts ... configuration that still lists it": also in a process that has only just started
+RevokedNeverAgain == AtRest => rootKeys \cap revAcc = {}
 RevokedNeverAtFetch == pc = "Authenticate" => rootKeys \cap revAcc = {}
 \* ... even if neither record could be written (strict reading; hypothesis configs only)
 RevokedNeverAgainStrict == Quiescent => rootKeys \cap (revAcc \cup revVol) = {}
@@ -535,11 +578,17 @@ RevokedOnlyRevokes ==
   /\ [][(Publishing /\ ~gFull)
           => (rootKeys' = {} \/ (rootKeys' \subseteq gT /\ (gT \ rootKeys') \subseteq gRevSet))]_vars
 
-\* fail closed: a new revocation neither write recorded; an undecodable tombstone store
+\* fail closed: a new revocation neither write recorded; an undecodable tombstone store; a tombstone
+\* store that exists but cannot be opened (and the run must not replace the store it could not read)
 FailClosed ==
   /\ [][(Publishing /\ gRevSet # {} /\ tombErr /\ stateErr) => rootKeys' = {}]_vars
   /\ [][(pc = "ReadTombstones" /\ ~tombUnreadable /\ tombFile.kind = "corrupt")
           => (rootKeys' = {} /\ pc' = "idle")]_vars
+  /\ [][(pc = "ReadTombstones" /\ tombUnreadable)
+          => (rootKeys' = {} /\ pc' = "idle" /\ UNCHANGED <<stateFile, tombFile>>)]_vars
+
+\* ... as a state predicate: a run that could not open the store goes no further than the read
+UnreadableAborts == tombUnreadable => pc \in {"ReadState", "ReadTombstones"}
 
 \* a trusted key that is present, or merely absent for less than 90 days, stays trusted
 StillOwed(k) == k \notin gRevSet /\ (k \in Plain(zone) \/ missSince[k] = None \/ missSince[k] < 90)
@@ -570,4 +619,7 @@ W_NeverRemoved     == ~(pc = "WriteTombstones" /\ \E k \in gT : k \notin KeysIn(
 W_NeverReappear    == ~(pc = "HoldDownTransitions" /\ \E t \in DOMAIN cur : cur[t].st = "Missing" /\ t \in DOMAIN fetched /\ ~revOnly)
 W_NeverMarkerKept  == \A t \in DOMAIN stateFile.m : stateFile.m[t].st # "Revoked"
 W_NeverTombUsed    == ~(pc = "MergeConfigured" /\ \E k \in Configured : k \in tombs)
+W_NeverUnreadable  == ~(pc = "ReadTombstones" /\ tombUnreadable /\ rootKeys # {})
+W_NeverBootFiltered == ~(pc = "idle" /\ booting /\ nRestart > 0 /\ rootKeys # Configured /\ rootKeys # {})
+W_NeverBootClosed  == ~(pc = "idle" /\ booting /\ nRestart > 0 /\ rootKeys = {} /\ tombFile.kind = "ok")
 =============================================================================
